@@ -26,7 +26,8 @@ def meets(spec, lv, box, cn, pos):
     return blo <= pos and (pos < bhi or bhi == G)
 
 
-def run_case(ctx, rep, spec, cn, posname, pos, fields, limit, model, path=None, truth=None, batch=None, big=False):
+def run_case(ctx, rep, spec, cn, posname, pos, fields, limit, model, path=None, truth=None, batch=None, big=False, how="api"):
+    """how: "api" | "cli" (the console script) | "str" (a single field given to the API as a bare string)"""
     from amr_kitchen.mandoline.mandoline import Mandoline
     if path is None:
         path = ctx.newdir("c16_")
@@ -35,12 +36,20 @@ def run_case(ctx, rep, spec, cn, posname, pos, fields, limit, model, path=None, 
     nlev = len(spec["levels"])
     L = nlev - 1 if limit is None else limit
     out = ctx.newdir("c16o_")
-    case = {"spec": spec, "normal": cn, "posname": posname, "pos": pos, "fields": fields, "limit": limit, "big": big}
-    rep.case({"s": spec, "n": cn, "p": pos, "f": fields, "l": limit}, nontrivial=(nlev >= 2 or not posname.startswith("L0:centre")))
+    case = {"spec": spec, "normal": cn, "posname": posname, "pos": pos, "fields": fields, "limit": limit, "big": big, "how": how}
+    rep.count("how:" + how)
+    rep.case({"s": spec, "n": cn, "p": pos, "f": fields, "l": limit, "how": how}, nontrivial=(nlev >= 2 or not posname.startswith("L0:centre")))
     rep.count("pos:" + posname.split(":")[-1]); rep.count(f"normal:{cn}")
     try:
         with alarm(300), quiet(), geom.tainted_empty(), pools.controlled():
-            Mandoline(path, fields=fields, limit_level=limit, serial=True, verbose=0).slice(normal=cn, pos=pos, outfile=out, fformat="plotfile")
+            if how == "cli":
+                from .. import tools
+                tools.mandoline_cli(path, "plotfile", out, fields, cn, pos, limit, serial=True)
+            else:
+                Mandoline(path, fields=(fields[0] if how == "str" and len(fields) == 1 else fields), limit_level=limit, serial=True,
+                          verbose=0).slice(normal=cn, pos=pos, outfile=out, fformat="plotfile")
+    except SystemExit as e:
+        rep.fail(f"the mandoline console script exited ({e.code}) on a valid invocation", case); return
     except Exception as e:
         rep.fail(f"plotfile-format slice raised {type(e).__name__}: {e}", case); return
     cx, cy = [i for i in range(3) if i != cn]
@@ -163,6 +172,8 @@ def run(ctx, rep, model=True):
         spec = plotgen.random_spec(ctx.rng, ndims=3, nlev=[2, 3, 1, 2][i % 4], nf=2, data=["smallint", "affine"][i % 2], B=2,
                                    nblk=[[2, 1, 2], [1, 2, 1], [2, 2, 1]][i % 3], origin=True, aniso=True, refine_p=0.4, layout="scatter",
                                    exact=(i % 3 != 2))     # every third mesh: cell sizes / origin that are no dyadic numbers
+        if i % 2 == 1:
+            spec["fields"][1] = ["wall_dist", "overall_hr"][i % 4 == 1]        # a field name containing the keyword "all"
         path = ctx.newdir("c16_")
         truth = plotgen.materialize(spec, path)
         names = list(dedup_names(spec["fields"]))
@@ -178,7 +189,10 @@ def run(ctx, rep, model=True):
             for j, (nm, pos) in enumerate(plist):
                 fields = [[names[0]], [names[1], names[0]], [names[1]]][j % 3]
                 limit = [None, nlev - 1, 0, None][j % 4]
-                run_case(ctx, rep, spec, cn, nm, pos, fields, limit, model, path, truth, batch)
+                how = ["api", "cli", "str", "api", "cli", "api"][j % 6] if len(fields) == 1 or j % 6 != 2 else "api"
+                if limit == 0 and nlev >= 2 and (i + j) % 2 == 0:
+                    how = "cli"          # the value 0 of an option through the console script
+                run_case(ctx, rep, spec, cn, nm, pos, fields, limit, model, path, truth, batch, how=how)
                 if len(rep.violations) >= 12:
                     c07.flush_model(rep, batch)
                     return
@@ -192,5 +206,5 @@ def replay(ctx, rep, obj, model=True):
     c = obj["case"]
     batch = [] if model else None
     run_case(ctx, rep, c["spec"], c["normal"], c.get("posname", "?"), c["pos"], c["fields"], c["limit"], model, batch=batch,
-             big=c.get("big", False))
+             big=c.get("big", False), how=c.get("how", "api"))
     c07.flush_model(rep, batch)
